@@ -16,6 +16,7 @@ MUTANTS = [
     {"id": "c07-reports-raw-order", "expect": "fire", "edits": [(G, "        for repo_id in self.sorted_repos:\n            repo = self.repos[repo_id]", "        for repo_id in self.repos:\n            repo = self.repos[repo_id]")]},
     {"id": "c07-graph-registered-early", "expect": "fire", "edits": [(G, "            x = repo.build_report_rgraph(bug_id, components)\n            results.append((repo_id, x))\n            rgraph_by_name[repo_id] = x", "            rgraph_by_name[repo_id] = None\n            x = repo.build_report_rgraph(bug_id, components)\n            results.append((repo_id, x))")]},
     {"id": "c07-prune-by-iid-order", "expect": "fire", "edits": [(G, "            if cur_rbuild.iid in self.from_rbuilds:\n                # do not go deeper", "            if cur_rbuild.iid <= max(self.from_rbuilds, default=-1):\n                # do not go deeper")]},
+    {"id": "c07-scheduled-counts-as-done", "expect": "fire", "edits": [(G, "                if repo_id in self.repos and repo_id not in done_repos)", "                if repo_id in self.repos and repo_id not in done_repos\n                and repo_id not in dfs_path_names[:-1])")]},
     # neutral
     {"id": "c07-n-rename", "expect": "silent", "edits": [(G, "not_processed_sub_components", "pending_components", 6)]},
 ]
